@@ -169,9 +169,12 @@ def run_case(n, adj, root, rng, agree, draws, sigma_scale):
 
 def random_graph(rng):
     n = int(rng.integers(2, 61))
+    chain = rng.random() < 0.04
+    if chain:
+        n = int(rng.integers(300, 420))       # a long chain: the traversal is as deep as the molecule is long
     E = set()
     for i in range(1, n):
-        E.add((int(rng.integers(0, i)), i))
+        E.add((i - 1 if chain else int(rng.integers(0, i)), i))
     kind = 'tree'
     if rng.random() < 0.4:
         kind = 'cyclic'
@@ -198,15 +201,17 @@ def _work(args):
                     if kind == 'perm':
                         adj = [list(rng.permutation(a)) for a in adj]
                         adj = [[int(x) for x in a] for a in adj]
-                    ev, look = run_case(n, adj, root, rng, agree=bool(tid % 2), draws=4 if kind == 'enum' else 2,
-                                        sigma_scale=float(rng.choice([0.01, 0.5, 3.0])))
+                    with common.caller_state(tid):
+                        ev, look = run_case(n, adj, root, rng, agree=bool(tid % 2), draws=4 if kind == 'enum' else 2,
+                                            sigma_scale=float(rng.choice([0.01, 0.5, 3.0])))
                     if kind == 'enum' and [c + 1 for c in look[1:]] != [o[1] for o in order]:
                         note = 'processing order differs from the Alg layer'
                 else:
                     n, adj, gk = random_graph(rng)
                     root = int(rng.integers(1, n + 1))
-                    ev, look = run_case(n, adj, root, rng, agree=bool(rng.random() < 0.5), draws=3,
-                                        sigma_scale=float(rng.choice([1e-4, 0.5, 2.0])))
+                    with common.caller_state(tid):
+                        ev, look = run_case(n, adj, root, rng, agree=bool(rng.random() < 0.5), draws=3,
+                                            sigma_scale=float(rng.choice([1e-4, 0.5, 2.0, 5.0])))
             except Exception as exc:
                 import traceback
                 n, adj, root = payload.get('n', 1) if isinstance(payload, dict) else 1, [[]], 1
